@@ -32,6 +32,7 @@ def jobs(tier):
     out = [dict(name=n, fn=n, params=p, budget_s=600, group=n, expect_outcomes=e) for n, p, e in [
         ("tuple", {}, ["ok"]), ("models", {}, ["ok"]), ("order", {}, ["ok"]), ("immutable", {}, ["ok"]),
         ("context", dict(shape=[[1, 0]]), ["known", "unknown"]), ("triples", {}, ["ok"])]]
+    out.append(dict(name="context:empty-converter", fn="context", params=dict(shape=[]), budget_s=300, group="context-empty", expect_outcomes=["unknown"]))
     if tier == "thorough":
         out.append(dict(name="context:2", fn="context", params=dict(shape=[[1, 1], [0, 0]]), budget_s=1200, shard_depth=5,
                         group="context", expect_outcomes=["known", "unknown"]))
